@@ -13,6 +13,7 @@ import (
 	"fmt"
 	"io"
 	"math"
+	"math/big"
 	"math/rand"
 	"net/http"
 	"net/url"
@@ -49,6 +50,7 @@ type KT[K comparable] struct {
 	Hash       func(K) uint32                       // the library's bucket hash, only used to construct colliding keys
 	Collide    func(rng *rand.Rand, want int) [][]K // groups of pairwise different keys with equal Hash
 	Incomplete func(K) any                          // the wire tree of k without one of its required key members (complex keys)
+	Foreign    func(k K, pos int) any               // the wire tree of something that is no key of this type but turns into k under a lossy decode (integers: k ± 2^bits)
 }
 
 // ---------------------------------------------------------------------------------------------
@@ -206,6 +208,17 @@ func intKT[K int32 | int64](name string, bits int) KT[K] {
 		},
 		Canon: canon, KeyCanon: canon,
 		Tree: func(k K) any { return canon(k) },
+		// seed C16m: a reader that narrows a wider integer files the never-requested key k + 2^32 under the requested k
+		Foreign: func(k K, pos int) any {
+			v := new(big.Int).Lsh(big.NewInt(1), uint(bits))
+			if pos%2 == 1 {
+				v.Neg(v)
+			}
+			if pos%5 == 4 {
+				v.Lsh(v, 1)
+			}
+			return v.Add(v, big.NewInt(int64(k))).String()
+		},
 		FromTree: func(t any) (string, error) {
 			s, ok := t.(string)
 			if !ok {
@@ -922,6 +935,12 @@ func RunType[K comparable](run *ev.Run, rng *rand.Rand, kt KT[K], cases int) {
 				extraTree = kt.Incomplete(keys[rng.Intn(len(keys))])
 				kind += "+incomplete-key"
 				run.Count(GENERATION+"."+kt.Name+".incomplete_key_replies", 1)
+			}
+			if kt.Foreign != nil && len(keys) > 0 && c%3 == 0 {
+				// chosen by position: no PRNG draw moves
+				extraTree = kt.Foreign(keys[c%len(keys)], c/3)
+				kind += "+out-of-range-alias"
+				run.Count(GENERATION+"."+kt.Name+".out_of_range_alias_replies", 1)
 			}
 			if extraTree != nil {
 				st, sh := style()
